@@ -11,6 +11,65 @@ open Rl4co.Spec.Loglik
 
 variable {S : Type}
 
+/-! ### extracted parameters (`Generated/Params.lean`, regenerated from the Python AST on every run)
+
+Each lemma states the closed form the proofs below use and is proved by evaluating the extracted token;
+it stops compiling when the corresponding token of `decoding.py` / `constructive/base.py` / `ops.py` /
+`ppo.py` changes. -/
+
+/-- `logprobs[~mask] = 0` -/
+theorem maskVal_eq (v : LP) (keep : Bool) : maskVal v keep = if keep then v else some 0 := by
+  cases keep <;> simp [maskVal, Params.gllMaskInverted, Params.gllMaskFill]
+
+/-- `torch.zeros_like(action)` / `torch.zeros_like(td["action_mask"])` in `pre_decoder_hook` -/
+theorem forcedRec_eq (storeAll : Bool) (N : Nat) :
+    forcedRec storeAll N = if storeAll then .full (List.replicate N (some 0)) else .g (some 0) := by
+  simp [forcedRec, Params.preForcedLogp, Params.preForcedLogpAll]
+
+/-- `return logprobs.sum(1)` -/
+theorem getLLSum_eq (recs : List Rec) (acts : List Nat) (mask : Option (List Bool)) :
+    getLLSum recs acts mask = lpSum (getLL recs acts mask) := by
+  simp [getLLSum, Params.gllSumAxis]
+
+/-- `while not td["done"].all()` -/
+theorem allDone_eq (e : DEnv S) (B : Nat) (b : Nat → RowSt S) :
+    allDone e B b = (List.range B).all (fun r => e.done (b r).s) := by
+  simp [allDone, Params.decodeLoopAllDone]
+
+/-- `action=actions[..., step]` -/
+theorem evalSel_eq (actions : Nat → List Nat) (r t : Nat) (row : Row) :
+    evalSel actions r t row = (actions r).getD t 0 := by
+  simp [evalSel, Params.evalActionOffset]
+
+/-- `if step > max_steps: break` after the increment -/
+theorem loopFuel_eq (maxSteps : Nat) : loopFuel maxSteps = maxSteps + 1 := by
+  simp [loopFuel, Params.decodeBreakCmp]
+
+/-- `.max(dim=-1)` in `_select_best`, `.max(1)` in `_select_best_beam` -/
+theorem betterEq_eq (x y : Int) : betterEq x y = decide (y ≤ x) := by
+  simp [betterEq, Params.selectBestIsMax, Params.beamBestIsMax]
+
+theorem validArgmax_le {B S : Nat} {rew : Nat → Int} {arg : Nat → Nat} (h : ValidArgmax B S rew arg)
+    (b : Nat) (hb : b < B) : arg b < S ∧ ∀ s, s < S → rew (s * B + b) ≤ rew (arg b * B + b) := by
+  obtain ⟨h1, h2⟩ := h b hb
+  refine ⟨h1, fun s hs => ?_⟩
+  have := h2 s hs
+  simpa [betterEq_eq] using this
+
+/-- `unbatchify(rewards, self.num_starts)`: the model's copy count `S` is `num_starts` -/
+theorem selectBest_factor : Params.selectBestFactorIsNumStarts = true := by decide
+
+/-- `ratio = torch.exp(ll.sum(dim=-1) - sub_td["logprobs"])` -/
+theorem ppoRatio_eq (ex : Int → Int) (llNew : List LP) (a b : Int) (h : lpSum llNew = some a) :
+    ppoRatio ex llNew (some b) = some (ex (a - b)) := by
+  simp [ppoRatio, h, Params.ppoRatioNewMinusOld]
+
+/-- `entropy = -(logprobs.exp() * logprobs).sum(dim=-1)`; `entropy.sum(dim=1)` -/
+theorem calculateEntropy_eq (prod : LP → Int) (rows : List Row) :
+    calculateEntropy prod rows
+      = -((rows.map (fun row => (row.map prod).foldr (· + ·) 0)).foldr (· + ·) 0) := by
+  simp [calculateEntropy, Params.entropyNegated]
+
 /-! ### lists -/
 
 theorem execD_snoc (e : DEnv S) (s : S) (as : List Nat) (a : Nat) :
@@ -88,6 +147,8 @@ theorem getLL_mask (recs : List Rec) (acts : List Nat) (m : Option (List Bool)) 
   | some m =>
     simp only [getLL, applyMask]
     congr 1
+    funext v keep
+    exact maskVal_eq v keep
 
 /-! ### the per-row invariant of the decoding loop -/
 
@@ -116,10 +177,10 @@ theorem rowInv_pre (e : DEnv S) (π : S → Row) (storeAll : Bool) (N : Nat)
     · simp [pre]
     · simp [pre]
     · cases storeAll <;>
-        simp [pre, getLL, specVals, tfVals, forcedRec, recVal, gather, List.getD, hf]
+        simp [pre, getLL, specVals, tfVals, forcedRec_eq, recVal, gather, List.getD, hf]
     · intro h
       subst h
-      simp [pre, forcedRec, fullRows, specRows, tfRows]
+      simp [pre, forcedRec_eq, fullRows, specRows, tfRows]
 
 theorem rowInv_step (e : DEnv S) (π : S → Row) (storeAll : Bool) (N : Nat) (s0 : S) (forced : Bool)
     (choose : Row → Nat) (st : RowSt S) (h : RowInv e π storeAll N s0 forced st) :
@@ -176,7 +237,7 @@ def Sim (b b' : Nat → RowSt S) : Prop := ∀ r, (b r).s = (b' r).s ∧ (b r).a
 
 theorem allDone_congr (e : DEnv S) (B : Nat) {b b' : Nat → RowSt S} (h : Sim b b') :
     allDone e B b = allDone e B b' := by
-  unfold allDone
+  rw [allDone_eq, allDone_eq]
   congr 1
   funext r
   rw [(h r).1]
@@ -324,7 +385,7 @@ def loopSafe (e : DEnv S) (π : S → Row) (sel : Nat → Nat → Row → Nat) (
 
 theorem allDone_iff (e : DEnv S) (B : Nat) (b : Nat → RowSt S) :
     allDone e B b = true ↔ ∀ r, r < B → e.done (b r).s = true := by
-  simp [allDone, List.all_eq_true]
+  simp [allDone_eq, List.all_eq_true]
 
 theorem loop_terminates_aux (e : DEnv S) (π : S → Row) (sel : Nat → Nat → Row → Nat) (sA : Bool)
     (B bound : Nat) (init : Nat → S) (H : LoopHyp e B bound init)
